@@ -1,4 +1,4 @@
 SPECIFICATION PSpec
-INVARIANTS NoOverwriteWhilePinned
+INVARIANTS NoOverwriteWhilePinned RetireProtocol
 POSTCONDITION TraceAccepted
 CHECK_DEADLOCK FALSE
